@@ -28,8 +28,16 @@ PROPS = {
                  [job(["core", "live", "resp", "tasks"], ["c02."]), core(["t", "q", "flag"], ["c02."])],
                  ["progress ('eventually terminal') depends on HiGHS returning an optimal solution and on the fair drain; monitored at rest "
                   "after a fault-free drain of every generated run, not proved"]),
-    "C03": entry("C03", ["c03_not_ready_with_deps"],
-                 [core(["msg", "t", "q", "cb"], ["c03."]), job(["ev", "resp", "tasks"], ["c03."])]),
+    "C03": entry("C03", ["c03_not_ready_with_deps", "c03_restart", "depClosed_iff"],
+                 [core(["msg", "t", "q", "cb"], ["c03."]), job(["ev", "resp", "tasks"], ["c03."]),
+                  # restart clause: journals persisted by the REAL server in simulated runs (kind sim) and generated ones,
+                  # restored at every record boundary by the real StateRestorer; monitor c03.restart
+                  {"component": "journal", "driver": "hqm-journal", "tags": ["res", "sub", "adj", "prod"], "clauses": ["c03.restart"],
+                   "quick": {"cases": 8, "shards": 12, "extra": ["--kind", "sim"]},
+                   "thorough": {"cases": 60, "shards": 16, "extra": ["--kind", "sim"]}}],
+                 ["c03_restart assumes the recorded state is closed under failure propagation at the cut (DepClosed): the server writes "
+                  "TasksAborted for all dependents before the TaskFailed that caused them and one TasksCanceled per cancel; validated on "
+                  "every run on journals the real server persists in simulated cluster runs, restored at every record boundary"]),
     "C05": entry("C05", ["c05_reserve_exact", "c05_release_restores"],
                  [core(["msg", "w", "rd", "t", "q"], ["c05."])]),
     "C06": entry("C06", ["c06_retracting_lost_increments"],
